@@ -139,6 +139,8 @@ Section Denote.
     end.
 End Denote.
 
+Definition is_raw (c : cmd) : bool := match c with Raw _ => true | _ => false end.
+
 (* ---------- the domain the property quantifies over ---------- *)
 Definition byte_ok (b : N) : bool := b <? 256.
 Definition rgba_ok (c : rgba) : bool := byte_ok (cr c) && byte_ok (cg c) && byte_ok (cb c) && byte_ok (ca c).
